@@ -1,8 +1,8 @@
 (* Extraction of the CBOR cluster (C02, C03, C10-decode).  ExtrOcamlBasic only:
    bool/option/unit/prod/list/sumbool map to OCaml's; N/Z/positive stay Coq datatypes. *)
-Require Import IP.Base.Bytes IP.DM.Value IP.Codec.Cid IP.Codec.Cbor.
+Require Import IP.Base.Bytes IP.DM.Value IP.Codec.Cid IP.Codec.Cbor IP.Codec.CborSpec.
 Require Extraction.
 Require Import ExtrOcamlBasic.
 Extraction Language OCaml.
 Extraction "model.ml" enc enc_len decode sort_maps dm_eqb rfc_ltb bytes_ltb cid_valid
-  dagcbor_eopts dagcbor_dopts dec_fuel f64_is_nan dm_depth.
+  dagcbor_eopts dagcbor_dopts dec_fuel f64_is_nan dm_depth chk denotes_b.
